@@ -80,12 +80,22 @@ def Verb.hasBody : Verb → Bool
   | .post | .put | .patch => true
   | _ => false
 
-/-- the alternation `(get|post|put|patch|delete)` followed by `\(`, leftmost-first -/
+def isAlpha (c : Char) : Bool := ('a' ≤ c && c ≤ 'z') || ('A' ≤ c && c ≤ 'Z')
+
+def verbOfLower (w : List Char) : Option Verb :=
+  if w = Verb.get.lowerChars then some .get
+  else if w = Verb.post.lowerChars then some .post
+  else if w = Verb.put.lowerChars then some .put
+  else if w = Verb.patch.lowerChars then some .patch
+  else if w = Verb.delete.lowerChars then some .delete
+  else none
+
+/-- the alternation `(get|post|put|patch|delete)` followed by `\(`: since `(` is not a letter, an
+    alternative matches exactly when the whole run of letters is that verb (case-insensitively) -/
 def matchVerb (s : List Char) : Option (Verb × List Char) :=
-  [Verb.get, .post, .put, .patch, .delete].findSome? (fun v =>
-    match stripPrefixCI v.lowerChars s with
-    | some ('(' :: rest) => some (v, rest)
-    | _ => none)
+  match verbOfLower ((s.takeWhile isAlpha).map lowerC), s.dropWhile isAlpha with
+  | some v, '(' :: rest => some (v, rest)
+  | _, _ => none
 
 /-- `(.*)\)\W*;?\W*$` inside one line: the greedy `.*` ends at the LAST `)` of the line and
     everything after it must be non-word characters -/
@@ -94,16 +104,17 @@ def lastParen (r : List Char) : Option (List Char) :=
   | ')' :: revContent => some revContent.reverse
   | _ => none
 
+def shootColon : List Char := ['s', 'h', 'o', 'o', 't', ':']
+
 /-- one line against the request pattern: verb and raw group 2 -/
 def matchReqLine (line : List Char) : Option (Verb × List Char) :=
-  match stripPrefixCI "shoot:".toList line with
+  match stripPrefixCI shootColon line with
   | none => none
   | some r1 =>
     -- `\W+`: at least one non-word character, then the verb starts with a word character
-    match r1.span (fun c => !isWord c) with
-    | ([], _) => none
-    | (_, r2) =>
-      match matchVerb r2 with
+    if (r1.takeWhile (fun c => !isWord c)).isEmpty then none
+    else
+      match matchVerb (r1.dropWhile (fun c => !isWord c)) with
       | none => none
       | some (v, r3) => (lastParen r3).map (fun c => (v, c))
 
@@ -237,7 +248,7 @@ def findAliasArg : List Char → Option (List Char)
     | none => findAliasArg cs
 
 def matchAliasLine (line : List Char) : Option (List Char) :=
-  match stripPrefix "shoot:".toList line with
+  match stripPrefix shootColon line with
   | none => none
   | some r => findAliasArg r
 
@@ -279,7 +290,7 @@ def findHeadersArg : List Char → Option (List Char)
     | none => findHeadersArg cs
 
 def matchHeadersLine (line : List Char) : Option (List Char) :=
-  match findSub "shoot:".toList line with
+  match findSub shootColon line with
   | none => none
   | some r => findHeadersArg r
 
